@@ -838,6 +838,16 @@ class Machine:
                     new = {'add': old + v, 'sub': old - v, 'xchg': v}[a[0]] & ((1 << a[2].w) - 1)
                     ts = s.trace_stores; s.trace_stores = False       # atomic read-modify-write: not a plain (racy) store
                     s.store(a[2], new, p); s.trace_stores = ts; R[ins.dst] = old
+                elif op == 'cmpxchg':      # single modelled thread: compare-and-swap always sees the current value (a weak cmpxchg never fails spuriously here)
+                    s.cur = fr
+                    p = const(None, a[0], R); old = s.load(a[1], p); cv = const(a[1], a[2], R); nv = const(a[1], a[3], R)
+                    if isBV(old) or isBV(cv): raise Unsupported('cmpxchg on symbolic values')
+                    ok = int(old == cv)
+                    if ok:
+                        ts = s.trace_stores; s.trace_stores = False; s.store(a[1], nv, p); s.trace_stores = ts
+                    R[ins.dst] = [old, ok]
+                elif op == 'fence':
+                    pass
                 elif op == 'unreachable':
                     s.cur = fr; s.ub_now('unreachable', "reached 'unreachable'")
                 elif op == 'freeze':
